@@ -125,6 +125,23 @@ def check_state(torch, st, seed):
                 y, lad = m.forward(x)
                 xr, ladi = m.inverse(y)
                 b = m.bias
+                # the same passes through the weight cache, both directions on one instance, either order
+                cached = []
+                for order in ("forward-first", "inverse-first"):
+                    m.use_cache(True)
+                    m.cache.invalidate()
+                    if order == "forward-first":
+                        yc, l_f = m.forward(x)
+                        xc, l_i = m.inverse(yc)
+                        _, l_f2 = m.forward(x)
+                    else:
+                        xc, l_i = m.inverse(y)
+                        yc, l_f = m.forward(xc)
+                        _, l_f2 = m.inverse(y)
+                        l_f2 = -l_f2
+                    cached.append((order, l_f, l_i, l_f2, xc))
+                    m.use_cache(False)
+                    m.cache.invalidate()
         except Exception as e:  # noqa
             fail("accessor_raises", "%s accessor / pass raised %r" % (cls, e), **tag)
             continue
@@ -143,6 +160,13 @@ def check_state(torch, st, seed):
             fail("pass_logabsdet", "forward / inverse logabsdet %s / %s vs logabsdet() %.9g" % (lad[0].item(), ladi[0].item(), float(l)), **tag)
         if not torch.allclose(xr, x, atol=1e-7):
             fail("roundtrip", "inverse(forward(x)) differs from x by %.3g" % float((xr - x).abs().max()), **tag)
+        for order, l_f, l_i, l_f2, xc in cached:
+            if not torch.allclose(l_f, l.expand(4), atol=1e-8) or not torch.allclose(l_i, -l.expand(4), atol=1e-8) or not torch.allclose(l_f2, l.expand(4), atol=1e-8):
+                fail("pass_logabsdet", "with the cache on (%s): forward / inverse logabsdet %.9g / %.9g (third call %.9g) vs logabsdet() %.9g" % (order, float(l_f[0]), float(l_i[0]), float(l_f2[0]), float(l)), **tag)
+                break
+            if not torch.allclose(xc, x, atol=1e-7):
+                fail("roundtrip", "with the cache on (%s): the inverse pass differs from the pre-image by %.3g" % (order, float((xc - x).abs().max())), **tag)
+                break
         if not torch.allclose(w2, w, atol=1e-9) or abs(float(l2) - float(l)) > 1e-9:
             fail("combined_accessor", "weight_and_logabsdet() = (.., %.9g) vs weight() / logabsdet() %.9g" % (float(l2), float(l)), **tag)
         if not torch.allclose(wi3, wi, atol=1e-8) or abs(float(l3) - float(l)) > 1e-8:
